@@ -249,10 +249,10 @@ class C17:
             return
         a0 = sel[0].term[2][0] if sel[0].term[2] else None
         sl = a0[1][0][1] if a0 is not None and a0[0] == "dict" and len(a0[1]) == 1 and a0[1][0][0] == dim else None
-        if sl is None or not (sl[0] == "call" and sl[1] == ("builtin", "slice") and len(sl[2]) == 2):
+        if sl is None or not (sl[0] == "slice" and sl[3] == NONE):
             ctx.undec("R17.2", site, "selection is not {dim: slice(a, b)}")
             return
-        lo, hi = sl[2]
+        lo, hi = sl[1], sl[2]
         bad = None
         n = 0
         for s_given, e_given, rcv, lcv in itertools.product((True, False), (True, False), (True, False), (True, False)):
@@ -510,6 +510,12 @@ def run(ctx: Ctx):
     c.check_crop_dim()
     c.check_width_ops()
     check_dim_step(ctx)
+    # crop_dim / extend_dim compare the requested interval with get_dim_range (anchored file arrays/dimensions.py):
+    # that it is the extent of the actual coordinates is a necessary condition
+    from .c16 import C16
+    with ctx.delegated("C16/"):
+        ctx.rule("R16.2", "get_dim_range = (min, max) of the dimension's index", 1)
+        C16(ctx).check_dim_range()
     return EXPLANATION, ASSUMPTIONS
 
 
